@@ -1,2 +1,11 @@
 #!/bin/sh
-exit 0
+# Build the framework offline from files on disk: the instrumenter, and (as a
+# smoke test + cache warm-up) the instrumented harness for /repo's current tree.
+set -e
+cd "$(dirname "$0")"
+. ./env.sh
+export PATH="$(dirname "$VERIF_GO"):$PATH"
+mkdir -p bin evidence replays
+"$VERIF_GO" build -o bin/instr ./cmd/instr
+./check build >/dev/null
+echo "setup ok"
